@@ -50,6 +50,11 @@ def convert_to_payload(dataclass_type: type, msg_id: int | None = None) -> None:
     dataclass_type.names = [field.name for field in dt_fields]  # type: ignore[attr-defined]
     dataclass_type.format_list = [type_map(type_hints[field.name]) for field in  # type: ignore[attr-defined]
                                   dt_fields]
+    for field in dt_fields:
+        # Arrays and payload lists unpack to a list: restore the container that the type hint asks for.
+        origin = getattr(type_hints[field.name], "__origin__", None)
+        if origin in (tuple, set) and not hasattr(dataclass_type, f"fix_unpack_{field.name}"):
+            setattr(dataclass_type, f"fix_unpack_{field.name}", staticmethod(origin))
     setattr(sys.modules[dataclass_type.__module__], dataclass_type.__name__, vp_compile(dataclass_type))
 
 
